@@ -33,7 +33,16 @@ class Stand:
         """Run harness code; a harness exception is a checker error, not a violation."""
         try:
             return fn(*a, **k)
-        except Exception:
+        except Exception as e:
+            tb = traceback.extract_tb(e.__traceback__)
+            inner = tb[-1].filename if tb else ''
+            if '/src/gemdat/' in inner:
+                # the exception was raised by the code under test on an input of the stated family: a violation, with replay
+                inp = a[0] if a and isinstance(a[0], dict) else None
+                self.evaluations += 1
+                self.violation('exception', f'{type(e).__name__}: {e} raised in {inner.split("/src/")[-1]}:{tb[-1].lineno}',
+                               f'{fn.__module__}:{fn.__name__}', inp)
+                return None
             self.errors.append(traceback.format_exc()[-1500:])
             return None
 
